@@ -16,7 +16,7 @@ def check(ctx):
     ctx.vh_ok(["c03-seeds", seeds, lay])
     all_seeds = vlib.read_nd(seeds, quoted=False)
     if not thorough:
-        # quick: per (target, ver, dialect) the longest and the shortest seed
+        # quick: per (target, ver, dialect) the two longest seeds and the shortest
         by = {}
         for s in all_seeds:
             by.setdefault((s["t"], s["ver"], s["dialect"]), []).append(s)
@@ -26,7 +26,7 @@ def check(ctx):
             if k[0] in ("jt1078.Decode", "jt808.Decode"):
                 pick += ss          # few and short: keep them all (history test runs over all seed pairs)
             else:
-                pick += [ss[0]] + ([ss[-1]] if len(ss) > 1 else [])
+                pick += ss[:2] + ([ss[-1]] if len(ss) > 2 else [])      # the two longest and the shortest
         with open(seeds, "w") as f:
             for s in pick:
                 f.write(json.dumps(s) + "\n")
